@@ -907,6 +907,9 @@ RULES = [
     ("C01.membarrier", rule_membarrier),
     # the registry the grace period scans, moves readers out of and splices back is only as good as the list primitives
     ("C01.registry", lambda c, r: pat.shared(__import__("sa.rules.c15", fromlist=["x"]).rule_listops, "C01.registry")(c, r)),
+    # ... and as the way the grace period hands the readers back: an overwrite instead of a splice drops every reader that registered while the
+    # scan had released the registry lock - later grace periods return without waiting for it
+    ("C01.putback", lambda c, r: pat.shared(__import__("sa.rules.c15", fromlist=["x"]).rule_lists, "C01.putback")(c, r)),
     ("C01.self", lambda c, r: pat.shared(__import__("sa.rules.c02", fromlist=["x"]).rule_self, "C01.self")(c, r)),   # a qsbr updater that returns offline is no longer waited for
 ]
 FLOORS = {}
